@@ -150,6 +150,11 @@ func (h *TraceHook) Call(e *Exec, fr *Frame, st *State, c *ssa.CallCommon, instr
 		en.vars["$obj"] = ev{obj, nil}
 		en.vars["$scope"] = ev{scope, nil}
 		en.vars["$kind"] = ev{IntLit(int64(kind)), nil}
+		if fr.parent != nil && !strings.HasSuffix(fr.path, "defer>") {
+			en.vars["$inlined"] = ev{True, nil} // the event happens inside an inlined callee, not in the function's own text
+		} else {
+			en.vars["$inlined"] = ev{False, nil}
+		}
 		if strings.HasSuffix(fr.path, "defer>") {
 			en.vars["$deferred"] = ev{True, nil}
 		} else {
